@@ -72,6 +72,24 @@ def cases(rng, tier):
             h = f32(A * scale * fr)
             yield ("stats takeoff %s %s %s %s" % (hexs(G.encode(tr)), fhex(h), fhex(rng.choice([1000.0, 2.0e6])), fhex(rng.choice([float("inf"), 1.0e6]))),
                    "closed-form-" + kind)
+    # aimed: the takeoff altitude lies inside a jump (a legal 0 ms segment from below it to above it); nothing before
+    # reaches it, everything after starts above it: the altitude is reached at the instant of the jump
+    for i in range(n // 25):
+        scale = rng.choice([1, 1, 2])
+        z0 = rng.randint(0, 100)
+        low = z0 + rng.randint(200, 1500)
+        high = low + rng.randint(1000, 6000)
+        zstep = rng.choice([[high], [low + 10, high - 10, high]])
+        segs = [dict(dur=rng.choice([1000, 2000, 7000]), x=[], y=[rng.randint(-300, 300)], z=[low], yaw=[]),
+                dict(dur=0, x=[], y=[], z=zstep, yaw=[]),
+                dict(dur=rng.choice([1000, 5000]), x=[rng.randint(-300, 300)], y=[], z=[], yaw=[])]
+        if rng.random() < 0.5:
+            segs.append(dict(dur=4000, x=[], y=[], z=[z0], yaw=[]))
+        tr = dict(scale=scale, use_yaw=False, start=[0, 0, z0, 0], segs=segs)
+        for fr in (0.3, 0.6, rng.uniform(0.05, 0.95)):
+            h = f32((low - z0 + (high - low) * fr) * scale)
+            yield ("stats takeoff %s %s %s %s" % (hexs(G.encode(tr)), fhex(h), fhex(rng.choice([1000.0, 2.0e6])), fhex(rng.choice([float("inf"), 1.0e6]))),
+                   "crossing-in-a-jump")
     # aimed: a segment whose altitude reaches the target inside it AND ends exactly on it (overshoot that settles on
     # the takeoff altitude): quadratic profiles z0 + h((1+r)/r u - u^2/r), r the parameter of the first crossing,
     # stored as cubics with integer control points
